@@ -4,6 +4,7 @@ pub mod alloc;
 pub mod encode;
 pub mod exercise;
 pub mod gen;
+pub mod logger;
 pub mod model;
 pub mod observe;
 pub mod props;
